@@ -14,7 +14,7 @@ def check(tier, seed):
     cases = []
     jobs, idx = [], []
     for s in fam.SETS:
-        for i, xi in enumerate(fam.boundary_seeds(s, 2) + fam.rare_keygen_seeds(s) + fam.seeds(rng, n)):
+        for i, xi in enumerate(fam.boundary_seeds(s, 2) + fam.zero_sum_seeds(s) + fam.rare_keygen_seeds(s) + fam.seeds(rng, n)):
             jobs.append(('keygen', s, xi)); idx.append((s, xi, i))
     refs = fam.ref_map(jobs)
     for (s, xi, i), (pk, sk) in zip(idx, refs):
